@@ -514,7 +514,7 @@ const RS: &[u8] = b"HTTP/1.1 200 OK\r\n";
 
 /// The same adversarial generators as the explorer's S8 size families.
 fn families() -> Vec<Family> {
-    vec![
+    let mut v = vec![
         Family { name: "huge-method", entry: Entry::Req, cfg: 0, gen: |n| rep(b"", b"M", n, b" / HTTP/1.1\r\n\r\n") },
         Family { name: "huge-target", entry: Entry::Req, cfg: 0, gen: |n| rep(b"GET /", b"a", n, b" HTTP/1.1\r\n\r\n") },
         Family { name: "huge-utf8-target", entry: Entry::Req, cfg: 0, gen: |n| rep(b"GET /", "é€".as_bytes(), n, b" HTTP/1.1\r\n\r\n") },
@@ -570,7 +570,28 @@ fn families() -> Vec<Family> {
             v.extend(rep(b"", b" ", n / 2, b"OK\r\n\r\n"));
             v
         } },
-    ]
+        Family { name: "colonless-lines", entry: Entry::Resp, cfg: 1 | 32, gen: |n| rep(RS, b"name junk\r\n", n, b"\r\n") },
+        Family { name: "colonless-lines-then-header", entry: Entry::Resp, cfg: 1 | 32, gen: |n| rep(RS, b"name  junk\r\n", n, b"A : b\r\n\r\n") },
+        Family { name: "colonless-lines-request", entry: Entry::Req, cfg: 64 | 16, gen: |n| rep(RQ, b"name junk\n", n, b"\n") },
+    ];
+    // (as in the explorer) every header-line family once more with all options of its kind on
+    let n = v.len();
+    for i in 0..n {
+        let f = &v[i];
+        let all: u8 = match f.entry {
+            Entry::Req => 4 | 16 | 64,
+            Entry::Resp => 1 | 2 | 8 | 16 | 32,
+            _ => continue,
+        };
+        let header_lines = !(f.name.starts_with("huge-") || f.name.starts_with("near-miss") || f.name.starts_with("leading-") || f.name.starts_with("multi-space"));
+        if !header_lines || f.cfg == all {
+            continue;
+        }
+        let name: &'static str = Box::leak(format!("{}+all-options", f.name).into_boxed_str());
+        let twin = Family { name, entry: f.entry, cfg: all, gen: f.gen };
+        v.push(twin);
+    }
+    v
 }
 
 fn main() {
